@@ -207,8 +207,9 @@ class Project:
         self._sp_cache_read = False
         self._sp_cache_misses = 0
         self._sp_cache_warned = False
-        self._sp_cache_miss_warning_threshold = self.config.get(
-            "statepoint_cache_miss_warning_threshold", 500
+        # Values read from the configuration file are strings.
+        self._sp_cache_miss_warning_threshold = int(
+            self.config.get("statepoint_cache_miss_warning_threshold", 500)
         )
 
     def __str__(self):
